@@ -1852,6 +1852,9 @@ func handleClientMessage(c *webClient, m clientMessage) error {
 			if err != nil {
 				return terror("error", err.Error())
 			}
+			if old.Group != c.group.Name() {
+				return terror("error", "wrong group in token")
+			}
 			t := old.Clone()
 			if tok.Expires != nil {
 				t.Expires = tok.Expires
